@@ -64,9 +64,9 @@ func (c *Ctx) checkMirror(sum objSummary, req string, key, at string, needStream
 		case !ok:
 			r.Fail("R1", k, at, "the answer's flags are not a bit function of the request's flags: "+short(got.String(), 100))
 		case bits[7] != 'z':
-			r.Fail("R1", k, at, "the request bit is not cleared in the answer (bit 7 is '"+string(bits[7])+"')")
+			r.Fail("R1", k, at, "the request bit is not cleared in the answer on every path (bit 7 is '"+string(bits[7])+"'; z=zero o=one s=same ?=path-dependent); flags = "+short(got.String(), 160))
 		case bits[6] != 's':
-			r.Fail("R1", k, at, "the proxiable bit of the request is not preserved in the answer (bit 6 is '"+string(bits[6])+"')")
+			r.Fail("R1", k, at, "the proxiable bit of the request is not preserved in the answer on every path (bit 6 is '"+string(bits[6])+"'; z=zero o=one s=same ?=path-dependent); flags = "+short(got.String(), 160))
 		default:
 			r.Ok("R1", k, at, fmt.Sprintf("flags transformer bits7..0 = %s: R cleared, P unchanged", reverse(bits)))
 		}
@@ -349,6 +349,77 @@ func (c *Ctx) c16StreamChain() {
 			}
 			r.Check(good, "R2", key, c.pos(ci), "the callee's stream parameter receives the caller's stream value unchanged", "the stream number is not passed through unchanged ("+short(args[ai].String(), 50)+"): the message is written to another stream than the one requested")
 		}
+		// bytes and stream travel together: a call that hands the message bytes on without the stream
+		// is only allowed on the edge where the transport is not multistream
+		if own >= 0 {
+			var bp *ssa.Parameter
+			for _, p := range f.Params {
+				if isByteSlice(p.Type()) {
+					bp = p
+				}
+			}
+			if bp != nil {
+				for _, ci := range flow.CallInstrs(f) {
+					carries := false
+					for _, a := range ci.Common().Args {
+						if derivesFromSliceParam(a, bp) {
+							carries = true
+						}
+					}
+					if !carries {
+						continue
+					}
+					if _, isB := ci.Common().Value.(*ssa.Builtin); isB {
+						continue
+					}
+					var sig *types.Signature
+					if o := flow.CalleeObj(ci); o != nil {
+						sig = o.Type().(*types.Signature)
+					}
+					if sig != nil && streamParam(sig) >= 0 {
+						continue // checked above
+					}
+					// the stream travels inside an info object passed in the same call (SCTP send info)
+					inObj := false
+					for _, a := range ci.Common().Args {
+						al, ok := a.(*ssa.Alloc)
+						if !ok {
+							continue
+						}
+						for _, ref := range flow.Referrers(al) {
+							fa, ok := ref.(*ssa.FieldAddr)
+							if !ok {
+								continue
+							}
+							for _, r2 := range flow.Referrers(fa) {
+								if st, ok := r2.(*ssa.Store); ok {
+									if p, isP := flow.Peel(st.Val).(*ssa.Parameter); isP && paramIndex(f, p) == own {
+										inObj = true
+									}
+								}
+							}
+						}
+					}
+					if inObj {
+						continue
+					}
+					n++
+					key := fmt.Sprintf("%s:bytes-without-stream-to-%s", fname(f), calleeLabel(ci))
+					notMulti := false
+					for _, g := range flow.Guards(ci) {
+						cond, neg := flow.Cond(g.If.Cond, g.Taken)
+						if ex, ok := cond.(*ssa.Extract); ok && ex.Index == 1 && neg {
+							if ta, ok := ex.Tuple.(*ssa.TypeAssert); ok {
+								if nt := flow.NamedOf(ta.AssertedType); nt != nil && strings.HasPrefix(nt.Obj().Name(), "Multistream") {
+									notMulti = true
+								}
+							}
+						}
+					}
+					r.Check(notMulti, "R2", key, c.pos(ci), "bytes are handed on without a stream only on the edge where the transport is not multistream", "on a multistream transport the message bytes are handed to "+calleeLabel(ci)+" without the requested stream (the stream is selected through shared connection state instead): concurrent answers can leave on each other's stream")
+				}
+			}
+		}
 		// SCTP sink: store into SndRcvInfo.Stream
 		flow.Instrs(f, func(in ssa.Instruction) {
 			st, ok := in.(*ssa.Store)
@@ -367,4 +438,27 @@ func (c *Ctx) c16StreamChain() {
 	if n == 0 {
 		r.Undecided("R2", "role:stream-chain", "-", "no stream-carrying call found on the write path")
 	}
+}
+
+func derivesFromSliceParam(v ssa.Value, p *ssa.Parameter) bool {
+	for i := 0; i < 8; i++ {
+		switch x := v.(type) {
+		case *ssa.Parameter:
+			return x == p
+		case *ssa.Slice:
+			v = x.X
+		case *ssa.ChangeType:
+			v = x.X
+		case *ssa.Phi:
+			for _, e := range x.Edges {
+				if e != ssa.Value(x) && derivesFromSliceParam(e, p) {
+					return true
+				}
+			}
+			return false
+		default:
+			return false
+		}
+	}
+	return false
 }
